@@ -118,7 +118,9 @@ func seeds() []seed {
 		return seedCache
 	}
 	var out []seed
-	add := func(name, kind string, d *gen.Doc) { out = append(out, seed{name: name, kind: kind, doc: d, gen: true}) }
+	add := func(name, kind string, d *gen.Doc) {
+		out = append(out, seed{name: name, kind: kind, doc: d, gen: true})
+	}
 	rich, min := richRecord(), gen.MinimalRecord()
 	lay, can := richLayout(), gen.CanonicalLayout()
 	can.Trailing = 64
